@@ -396,7 +396,7 @@ Theorem step_ok ns0 c w o w' :
   end ->
   step c w o = Some w' -> WInv ns0 w'.
 Proof.
-  intros (HI & HP & HQ) Hg Hd E. destruct o as [ts|us|us|e|strat]; cbn [step] in E.
+  intros (HI & HP & HQ) Hg Hd E. destruct o as [ts|us|us|e|strat|us|us]; cbn [step] in E.
   - destruct (intake ts (cancel_list (st w)) []) as [[keep cl] evs] eqn:Ei. injection E as <-.
     cbn [st q_sched]. split; [|split].
     + eapply sinv_frame; [| | |exact HI]; reflexivity.
@@ -417,6 +417,14 @@ Proof.
     + eapply sinv_frame; [| | |exact C]; reflexivity.
     + unfold set_res. cbn [waitpool]. rewrite D. exact B.
     + constructor.
+  - injection E as <-. cbn [st q_sched]. split; [|split].
+    + eapply sinv_frame; [| | |exact HI]; reflexivity.
+    + exact HP.
+    + exact HQ.
+  - injection E as <-. cbn [st q_sched]. split; [|split].
+    + exact HI.
+    + exact HP.
+    + unfold QWf. apply Forall_app; split; [exact HQ|]. constructor; [exact I|constructor].
 Qed.
 
 Theorem run_ok ns0 c : forall ops w w',
